@@ -1046,6 +1046,49 @@ func gen(g *core.G) {
 		"Float[[1.0]]", "Float[[1.0, 2.0]]", "Float[Float]", "Float[undef]", "Float[1.0, undef]", "Float[-1e400, 1.0]"} {
 		emitText(t, true)
 	}
+	// Callable: every argument SHAPE over the leaves its creator distinguishes (types, sizes, `default`, block types, a
+	// leading Tuple, Unit, an Integer type) — accepted forms are compared with the model (text and verdict), refused ones
+	// run on the implementation only; Runtime and TypeReference: every parameter form; unknown names; second spellings
+	for _, al := range syn.ArgShapes(syn.CallableLeaves, false) {
+		emitText("Callable["+al+"]", true)
+	}
+	for _, al := range syn.ArgShapes4([]string{"String", "1", "default", "Callable", "Tuple[String]"}, false) {
+		emitText("Callable["+al+"]", true)
+	}
+	for _, t := range []string{"Callable", "Callable[String]", "Callable[String, Integer]", "Callable[String, 1, 2]", "Callable[String, 1, default]", "Callable[String, String, 1]", "Callable[0, 0]", "Callable[1, 2]",
+		"Callable[0, default]", "Callable[String, Callable]", "Callable[String, Optional[Callable]]", "Callable[Callable]", "Callable[1, 2, Callable]", "Callable[[String], Integer]", "Callable[[], Integer]",
+		"Callable[[String, 1, 2, Callable], Integer]", "Callable[[Tuple[String]], Integer]", "Callable[[0, 0], Callable]", "Callable[[Callable], Callable]",
+		"Struct[{a => Callable[String], Optional[b] => Optional[Callable[[], Undef]]}]", "Array[Callable[[String], Integer], 0, 1]", "Variant[Callable[0, 0], Callable[1, 2]]"} {
+		emitValid(t)
+	}
+	for _, rt := range []string{"", "''", "'go'", "'ruby'", "ruby", "1"} {
+		for _, nm := range []string{"", "''", "'x'", "x", "/x/", "String"} {
+			for _, pat := range []string{"", "Regexp", "Regexp[/a/]", "Regexp['a']", "/a/", "'a'", "String"} {
+				args := []string{}
+				for _, a := range []string{rt, nm, pat} {
+					if a != "" {
+						args = append(args, a)
+					}
+				}
+				if len(args) > 0 {
+					emitText("Runtime["+strings.Join(args, ", ")+"]", true)
+				}
+			}
+		}
+	}
+	for _, t := range []string{"Runtime", "Runtime['ruby']", "Runtime['go']", "Runtime['ruby', 'x']", "Runtime['ruby', 'x', Regexp[/a/]]", "Runtime['ruby', 'x', Regexp]", "Runtime['ruby', '']",
+		"TypeReference", "TypeReference['x']", "TypeReference['']", "TypeReference['it\\'s \\\\']", "TypeReference['UnresolvedReference']", "Typereference['x']", "Foo", "My::Thing", "Catalogentry", "A::B",
+		"Foo['x']", "My::Thing['Foo']", "Array[Foo]", "Struct[{a => My::Thing, b => Runtime['ruby', 'x']}]", "Optional[TypeReference['q']]",
+		"Notundef", "Notundef[String]", "RegExp[/a/]", "Richdata", "Scalardata", "Semver", "Semverrange", "SemverRange", "TimeSpan", "TimeStamp", "Typeset", "Uri", "Struct[{a => Richdata}]"} {
+		emitValid(t)
+	}
+	for _, t := range []string{"Runtime['go', 'x']", "Runtime[1]", "Runtime['a', 'b', Regexp[/a/], 1]", "TypeReference[1]", "TypeReference['a', 'b']", "TypeReference[String]", "Foo[1]", "Foo['a', 'b']",
+		"My::Thing[Integer]", "Any[1]", "Richdata[1]"} {
+		emitText(t, true)
+	}
+	for _, t := range []string{"Annotation", "Like", "TypeAlias", "Typealias", "Deferred", "My::Pt", "Pcore::AnyType"} { // core / loadable names outside the model
+		g.Emit("@rt-type " + hx(t) + " ()")
+	}
 	// Struct: every key form x every value type (each answer of "accepts undef"), alone, after and before another member,
 	// and in the other surface forms of the parameter list; nested inside the old forms and the old forms inside it
 	// (valid by construction: always compared with the model, so that a creator that starts refusing a form shows)
